@@ -14,6 +14,11 @@
                          character-data tokens come in source order
     C17_boundaries       every end point is a char boundary of the source, when the token spans are
                          slices of the source
+    C17_error_step_reserved   the two reserved-name errors: `InvalidTarget` is raised by the PI arm with the
+                         span of the PI's target, `InvalidNamespaceDeclaration` by a namespace-declaration
+                         attribute with the span of its NAME (like `DuplicateAttribute`); both are errors of
+                         one token of the list (C17_error_reserved_origin), so C17_errors / C17_ordered /
+                         C17_boundaries cover them like every other `ParseErr` (`ParseErr.span`)
   For the reference tokenizer (Model/Lex*.lean: xmlparser 0.13.6 as written; tied to the crate by the
   `lex` suite), on EVERY string:
     C17_lex_slices / _sliceOf   every token span is the slice of the text at its byte offsets
@@ -31,11 +36,24 @@
                          value text, which decodes (`parse_attribute`, ID-normalised for the name id of
                          xml:id) to the attribute node's value
                          (the value span lies between two equal quote characters of the source)
-    C17_slice_comment, C17_slice_pi   body / target / content
+    C17_slice_comment    `Comment` slices to the body AS WRITTEN; the node's value is `normalizeLineEnds` of
+                         that slice (CR LF → LF, then CR → LF: `<!--x\r\ny-->` has the value `x\ny` and a
+                         span of 4 bytes)
+    C17_slice_pi         `PiTarget` slices to the target = the local name of the node's name (never `xml`
+                         in any letter case); `PiContent` slices to the data AS WRITTEN, and the node's data
+                         is `normalizeLineEnds` of that slice
+    C17_slice_comment_noCr / C17_slice_pi_noCr   when the slice (in particular: the text,
+                         `…_noCr_source`) contains no CR, the slice IS the value / the data
     C17_slice_text       `Text` slices to the source of the run of text / CDATA tokens behind the node,
                          from inside the first part to inside the last (`runSlice`), and decoding that
                          slice (`decodeRun`) gives the node's value
     C17_span_of_every_node   all of it, for every path at once
+  ERRORS ON STRINGS (Lemmas/SpanDescErr.lean): for every string rejected with
+    C17_error_invalidTarget   `InvalidTarget(target, span)`: `span` is the target span of a PI token of the text,
+                         slices the text to `target`, and `target` is `xml` in some letter case
+    C17_error_invalidNamespaceDeclaration   `InvalidNamespaceDeclaration(name, span)`: `span` is the name span of
+                         an attribute token `xmlns:p` / `xmlns`, slices the text to that name as written; the
+                         attribute's decoded value is reserved for the prefix (`reservedDecl`)
 -/
 import XotModel.Lemmas.ParseSpans
 import XotModel.Lemmas.ParseSpanKeys
@@ -49,6 +67,7 @@ import XotModel.Lemmas.LexSliceOrder
 import XotModel.Lemmas.LexCanon
 import XotModel.Model.ParseString
 import XotModel.Lemmas.SpanSliceNode
+import XotModel.Lemmas.SpanDescErr
 
 namespace XotModel.Props
 open XotModel XotModel.Witness
@@ -329,20 +348,62 @@ theorem C17_slice_attribute {m : Mode} {env : Env} {s : Str} {p : Parsed} (h : p
         else lookupPrefix (scopeAt p.tree baseStack q) (p.env.prefixes.idxOf pfx.text) = some ns :=
   (parseString_sliced h hat).2 k hk n v hv
 
-/-- C17_slice_comment: the `Comment` span slices to the comment's text. -/
+/-- C17_slice_comment: the `Comment` span slices to the comment's body AS WRITTEN (`w`); the node's
+    value is its line-end normalisation (`content.replace("\r\n", "\n").replace('\r', "\n")`). -/
 theorem C17_slice_comment {m : Mode} {env : Env} {s : Str} {p : Parsed} (h : parseString m env s = .ok p)
     {q : Path} {v : Str} {ks : List Tree} (hat : p.tree.at? q = some (.node (.comment v) ks)) :
-    ∃ sp, p.spans.get ⟨q, .comment⟩ = some sp ∧ sliceBytes s sp.start sp.stop = some v :=
+    ∃ w, (∃ sp, p.spans.get ⟨q, .comment⟩ = some sp ∧ sliceBytes s sp.start sp.stop = some w) ∧
+      v = normalizeLineEnds w :=
   parseString_sliced h hat
 
+/-- … full strength when the written body has no CR: the slice IS the value. -/
+theorem C17_slice_comment_noCr {m : Mode} {env : Env} {s : Str} {p : Parsed} (h : parseString m env s = .ok p)
+    {q : Path} {v : Str} {ks : List Tree} (hat : p.tree.at? q = some (.node (.comment v) ks)) :
+    ∃ sp w, p.spans.get ⟨q, .comment⟩ = some sp ∧ sliceBytes s sp.start sp.stop = some w ∧
+      ('\r' ∉ w → sliceBytes s sp.start sp.stop = some v) := by
+  obtain ⟨w, ⟨sp, hg, hs⟩, rfl⟩ := C17_slice_comment h hat
+  exact ⟨sp, w, hg, hs, fun hcr => by rw [normalizeLineEnds_noCr w hcr]; exact hs⟩
+
+/-- … in particular for a text without any CR. -/
+theorem C17_slice_comment_noCr_source {m : Mode} {env : Env} {s : Str} {p : Parsed}
+    (h : parseString m env s = .ok p) (hcr : '\r' ∉ s)
+    {q : Path} {v : Str} {ks : List Tree} (hat : p.tree.at? q = some (.node (.comment v) ks)) :
+    ∃ sp, p.spans.get ⟨q, .comment⟩ = some sp ∧ sliceBytes s sp.start sp.stop = some v := by
+  obtain ⟨w, hw, rfl⟩ := C17_slice_comment h hat
+  exact SlicesTo.normalized_of_noCr hcr hw
+
 /-- C17_slice_pi: `PiTarget` slices to the target = the local name of the node's name (a name in no
-    namespace), `PiContent` to the node's data when it has any. -/
+    namespace; not `xml` in any letter case — that is `InvalidTarget`); `PiContent` slices to the data AS
+    WRITTEN (`w`) when the node has data, and the data is the line-end normalisation of `w`. -/
 theorem C17_slice_pi {m : Mode} {env : Env} {s : Str} {p : Parsed} (h : parseString m env s = .ok p)
     {q : Path} {id : Nat} {d : Option Str} {ks : List Tree} (hat : p.tree.at? q = some (.node (.pi id d) ks)) :
     ∃ target, (∃ sp, p.spans.get ⟨q, .piTarget⟩ = some sp ∧ sliceBytes s sp.start sp.stop = some target) ∧
+      isReservedPiTarget target = false ∧
       p.env.names[id]? = some (target, Env.noNamespace) ∧
-      ∀ c, d = some c → ∃ sp, p.spans.get ⟨q, .piContent⟩ = some sp ∧ sliceBytes s sp.start sp.stop = some c :=
+      ∀ c, d = some c → ∃ w, (∃ sp, p.spans.get ⟨q, .piContent⟩ = some sp ∧
+        sliceBytes s sp.start sp.stop = some w) ∧ c = normalizeLineEnds w :=
   parseString_sliced h hat
+
+/-- … full strength when the written data has no CR: the slice IS the data. -/
+theorem C17_slice_pi_noCr {m : Mode} {env : Env} {s : Str} {p : Parsed} (h : parseString m env s = .ok p)
+    {q : Path} {id : Nat} {c : Str} {ks : List Tree} (hat : p.tree.at? q = some (.node (.pi id (some c)) ks)) :
+    ∃ sp w, p.spans.get ⟨q, .piContent⟩ = some sp ∧ sliceBytes s sp.start sp.stop = some w ∧
+      ('\r' ∉ w → sliceBytes s sp.start sp.stop = some c) := by
+  obtain ⟨_, _, _, _, hc⟩ := C17_slice_pi h hat
+  obtain ⟨w, ⟨sp, hg, hs⟩, rfl⟩ := hc c rfl
+  exact ⟨sp, w, hg, hs, fun hcr => by rw [normalizeLineEnds_noCr w hcr]; exact hs⟩
+
+/-- … in particular for a text without any CR: the statement without normalisation. -/
+theorem C17_slice_pi_noCr_source {m : Mode} {env : Env} {s : Str} {p : Parsed}
+    (h : parseString m env s = .ok p) (hcr : '\r' ∉ s)
+    {q : Path} {id : Nat} {d : Option Str} {ks : List Tree} (hat : p.tree.at? q = some (.node (.pi id d) ks)) :
+    ∃ target, (∃ sp, p.spans.get ⟨q, .piTarget⟩ = some sp ∧ sliceBytes s sp.start sp.stop = some target) ∧
+      p.env.names[id]? = some (target, Env.noNamespace) ∧
+      ∀ c, d = some c → ∃ sp, p.spans.get ⟨q, .piContent⟩ = some sp ∧ sliceBytes s sp.start sp.stop = some c := by
+  obtain ⟨target, ht, _, hn, hc⟩ := C17_slice_pi h hat
+  refine ⟨target, ht, hn, fun c hd => ?_⟩
+  obtain ⟨w, hw, rfl⟩ := hc c hd
+  exact SlicesTo.normalized_of_noCr hcr hw
 
 /-- C17_slice_text.  Behind the text node at `q` is a run of CONSECUTIVE tokens of the text, all of
     them text or CDATA tokens (`run`; adjacent in the source, empty CDATA sections included).  The
